@@ -25,10 +25,10 @@ def cases(tier):
     out = []
     depths = [0, 1, 2, 3]
     for role in ("argument", "kwarg", "callee"):
-        for flavour in ("plain", "pyname", "dotted", "dotted3", "backquoted"):
+        for flavour in ("plain", "pyname", "dotted", "dotted3", "dotted3same", "backquoted", "unicode"):
             if role in ("argument", "kwarg") and flavour.startswith("dotted"):
                 continue
-            if role == "callee" and flavour == "backquoted":
+            if role == "callee" and flavour in ("backquoted", "unicode"):
                 continue
             for depth in depths:
                 out.append((role, flavour, depth))
@@ -68,9 +68,11 @@ def harness(env, case):
     # restrictions of the flavours
     if flavour.startswith("dotted"):
         bits["builtins"] = False  # no built-in has a dotted name
-    if flavour == "backquoted":
+    if flavour in ("backquoted", "unicode"):
         bits["builtins"] = False
-        bits["locals"] = False  # a back-quoted name is not a Python identifier
+        bits["locals"] = False  # a back-quoted name is not a Python identifier; a name that is not in normal form
+        # NFKC cannot be a local either (Python normalises identifiers in source text), but it can be a
+        # column, a key of a globals dict or of extra_namespace
     if role == "callee":
         pass
     tag = Tag(env)
@@ -82,6 +84,8 @@ def harness(env, case):
         base = "round" if role == "callee" else "len"  # names of PYTHON builtins are not a scope of their own
     if flavour == "backquoted":
         base = "odd name!"
+    if flavour == "unicode":
+        base = "\u00b5g"  # MICRO SIGN: its NFKC form is GREEK SMALL LETTER MU
     head = base if not flavour.startswith("dotted") else "m"
 
     NONE = object()
@@ -99,6 +103,8 @@ def harness(env, case):
             return types.SimpleNamespace(fn=obj)
         if flavour == "dotted3":
             return types.SimpleNamespace(sub=types.SimpleNamespace(fn=obj))
+        if flavour == "dotted3same":
+            return types.SimpleNamespace(fn=types.SimpleNamespace(fn=obj))  # an inner component spelt like the function
         return obj
 
     cols = {"y": y, "x": x}
@@ -128,7 +134,7 @@ def harness(env, case):
 
     if bits["extra"]:
         extra[head] = bound("extra")
-    name_in_formula = {"plain": base, "pyname": base, "backquoted": f"`{base}`", "dotted": "m.fn", "dotted3": "m.sub.fn"}[flavour]
+    name_in_formula = {"plain": base, "pyname": base, "backquoted": f"`{base}`", "dotted": "m.fn", "dotted3": "m.sub.fn", "dotted3same": "m.fn.fn", "unicode": base}[flavour]
     formula = {"argument": f"y ~ rec(x, {name_in_formula})", "kwarg": f"y ~ rec(x, v={name_in_formula})", "callee": f"y ~ {name_in_formula}(x)"}[role]
     # nested callers: frame i has its own globals dict; decoys at every depth other than the selected one
     result = {}
@@ -148,7 +154,7 @@ def harness(env, case):
         gdicts.append(g)
     # frame 0 calls design_matrices; frame i+1 calls frame i directly (no helper frames in between)
     for i in range(4):
-        bind_local = (i == depth and bits["locals"]) or (i != depth and flavour != "backquoted")
+        bind_local = (i == depth and bits["locals"]) or (i != depth and flavour not in ("backquoted", "unicode"))
         lines = [f"def caller{i}(chain, locs, dm, formula, df, k, extra):"]
         if bind_local:
             lines.append(f"    {head} = locs[{i}]")
